@@ -58,7 +58,7 @@ ASSUMPTIONS = [
 ]
 TRUSTED = ['modelled, not verified: openpyxl load/tokenizer, networkx, ruamel.yaml/json/pickle codecs, the concrete '
            'formula evaluator of pycel (compared only on the generated language)']
-REQUIRED_BUCKETS = ['nodata', 'xlsx', 'yml', 'json', 'pkl', 'nodata:exh', 'xlsx:exh', 'nodata:near', 'xlsx:near', 'nodata:fail', 'xlsx:fail']
+REQUIRED_BUCKETS = ['nodata', 'xlsx', 'yml', 'json', 'pkl', 'nodata:exh', 'xlsx:exh', 'nodata:near', 'xlsx:near', 'nodata:fail', 'xlsx:fail', 'nodata:text', 'xlsx:text']
 EXHAUSTIVE = False
 EXPLANATION = ('theorems: generic engine, all workbooks/histories/value types; correspondence: real ExcelCompiler vs '
                'compiled model per operation, plus implementation-only oracle against a from-scratch compile')
@@ -479,7 +479,7 @@ def nontrivial(case):
 
 def bucket(case):
     return case['cfg'] + (':exh' if case.get('exh') else ':near' if case.get('near') else
-                          ':fail' if case.get('fail') else '')
+                          ':fail' if case.get('fail') else ':text' if case.get('text') else '')
 
 
 # ---------------------------------------------------------------------------------------------------------------
@@ -786,6 +786,69 @@ def gen_near(rng):
     return nodes, ops + [['E', a] for a in tail]
 
 
+# --- text writes that are equal to the current value under some normalisation, but different values
+
+TEXT_BASES = ['abc', 'ABC', 'Abc', ' abc', 'abc ', '', None, '1', 1, 'TRUE', True, 'false', False, '\u00e9t\u00e9',
+              'e\u0301te\u0301', 'Stra\u00dfe', 'x  y', '0', 0]
+
+
+def text_variant(rng, v):
+    """a value that a sloppy comparison could take for v: other letter case, added/removed blanks, '' vs blank,
+    "1" vs 1, "TRUE" vs TRUE, the other Unicode normal form"""
+    import unicodedata
+    if v is None:
+        return rng.choice(['', ' ', 0, False])
+    if isinstance(v, bool):
+        return rng.choice(['TRUE' if v else 'FALSE', 'true' if v else 'false', int(v)])
+    if isinstance(v, int):
+        return rng.choice([str(v), f' {v}', bool(v) if v in (0, 1) else str(v), f'{v}.0'])
+    opts = [v.upper(), v.lower(), v.swapcase(), v.title(), ' ' + v, v + ' ', v.strip(),
+            unicodedata.normalize('NFC', v), unicodedata.normalize('NFD', v)]
+    if v == '':
+        opts += [None, ' ']
+    if v.strip().lstrip('-').isdigit():
+        opts += [int(v.strip())]
+    if v.strip().upper() in ('TRUE', 'FALSE'):
+        opts += [v.strip().upper() == 'TRUE']
+    opts = [o for o in opts if not (type(o) is type(v) and o == v)] or [v + ' ']
+    return rng.choice(opts)
+
+
+def gen_textnear(rng):
+    k = rng.randint(2, 4)
+    nodes = [['I', f'Sheet1!A{r + 1}', _tok(rng.choice(TEXT_BASES))] for r in range(k)]
+    inputs = list(range(k))
+    rn = None
+    if rng.random() < 0.6:
+        nodes.append(['R', f'Sheet1!A1:A{k}', k, 1, inputs[:]])
+        rn = len(nodes) - 1
+    for j in range(rng.randint(2, 4)):
+        cellnodes = [i for i, n in enumerate(nodes) if n[0] != 'R']
+        kind = rng.choice(['cat', 'cat', 'cat', 'ref', 'idx'])
+        if kind == 'idx' and rn is None:
+            kind = 'cat'
+        if kind == 'cat':
+            args = [rng.choice(cellnodes) for _ in range(rng.randint(1, 3))]
+        elif kind == 'ref':
+            args = [rng.choice(cellnodes)]
+        else:
+            args = [rn, rng.randint(1, k), 1]
+        nodes.append(['F', f'Sheet1!B{j + 1}', kind, args])
+    cur = {i: _py(nodes[i][2]) for i in inputs}
+    ops = [['E', a] for a in range(len(nodes)) if rng.random() < 0.85]
+    for _ in range(rng.randint(1, 8)):
+        if rng.random() < 0.55:
+            i = rng.choice(inputs)
+            v = text_variant(rng, cur[i]) if rng.random() < 0.85 else rng.choice(TEXT_BASES)
+            cur[i] = v
+            ops.append(['S', i, _tok(v)])
+        else:
+            ops.append(['E', rng.randrange(len(nodes))])
+    tail = list(range(len(nodes)))
+    rng.shuffle(tail)
+    return nodes, ops + [['E', a] for a in tail]
+
+
 # three fixed small workbooks for the exhaustive core
 def _fixed():
     n_ = lambda v: _tok(v)   # noqa
@@ -852,6 +915,10 @@ def cases(tier, rng):
         nodes = add_unbuildable(rng, gen_workbook(rng))
         yield {'cfg': ('nodata', 'xlsx')[k % 2], 'nodes': nodes, 'ops': gen_history(rng, nodes, False, strict=True),
                'fail': 1}
+    for k in range(2500 if thorough else 250):
+        nodes, ops = gen_textnear(rng)
+        yield {'cfg': ('nodata', 'xlsx', 'yml', 'nodata', 'json', 'xlsx', 'pkl')[k % 7], 'nodes': nodes, 'ops': ops,
+               'text': 1}
     n = 4000 if thorough else 350
     cfgs = ['nodata', 'xlsx', 'nodata', 'xlsx', 'yml', 'json', 'pkl']
     for k in range(n):
